@@ -247,6 +247,9 @@ pub struct World {
     pub active: bool,
     pub cfg: SimConfig,
     pub rng: Rng,
+    /// separate stream for I/O-level choices (short reads, early clock advances) so that an
+    /// explicit schedule does not shift them
+    pub rng_io: Rng,
     pub parts: Vec<Part>,
     pub current: Option<usize>,
     pub abort: Option<Abort>,
@@ -287,6 +290,7 @@ impl World {
             active: false,
             cfg: SimConfig::default(),
             rng: Rng::new(0),
+            rng_io: Rng::new(0),
             parts: vec![],
             current: None,
             abort: None,
@@ -432,8 +436,7 @@ impl World {
             // optional early clock advance
             if let Some(t) = sleepers {
                 if self.cfg.clock_advance_pm > 0
-                    && self.schedule_pos >= self.cfg.schedule.len()
-                    && self.rng.below(1000) < self.cfg.clock_advance_pm as u64
+                    && self.rng_io.below(1000) < self.cfg.clock_advance_pm as u64
                 {
                     self.clock = t;
                     self.stats.fire("clock_advance_early");
@@ -546,6 +549,7 @@ pub fn begin_run(cfg: SimConfig, stdin: Vec<u8>) {
     let mut g = lock();
     let mut w = World::new();
     w.rng = Rng::new(cfg.seed);
+    w.rng_io = Rng::new(cfg.seed ^ 0x5151_7373_9191_abab);
     w.gen_id = GEN.fetch_add(1, std::sync::atomic::Ordering::SeqCst);
     if let Strategy::Pct { d, horizon } = cfg.strategy {
         for _ in 0..d {
@@ -871,8 +875,8 @@ pub fn pipe_read(pipe: usize, buf: &mut [u8]) -> io::Result<usize> {
             let avail = w.pipes[pipe].buf.len();
             if avail > 0 {
                 let mut n = avail.min(buf.len());
-                if n > 1 && w.cfg.short_read_pm > 0 && w.rng.below(1000) < w.cfg.short_read_pm as u64 {
-                    n = w.rng.range(1, n as u64 - 1) as usize;
+                if n > 1 && w.cfg.short_read_pm > 0 && w.rng_io.below(1000) < w.cfg.short_read_pm as u64 {
+                    n = w.rng_io.range(1, n as u64 - 1) as usize;
                     w.stats.fire("short_read");
                 }
                 let p = &mut w.pipes[pipe];
